@@ -100,10 +100,9 @@ Proof.
   destruct (rnode e) as [| |s|a b|x xr|a|l|l] eqn:K;
     try (apply (make_nn c0 m (NLoop e rg) m' t W Z I I H));
     try (inversion H; subst; exact Z).
-  destruct (lr_rmie xr rg) as [[|]|]; cbn [bind] in H; try discriminate.
-  - destruct (lr_mul xr rg) as [r|] eqn:M; cbn [bind] in H; [|discriminate].
-    apply (make_nn c0 m (NLoop x r) m' t W Z I I H).
-  - apply (make_nn c0 m (NLoop e rg) m' t W Z I I H).
+  destruct (lr_rmie xr rg) as [[|]|]; try (apply (make_nn c0 m (NLoop e rg) m' t W Z I I H)).
+  destruct (lr_mul xr rg) as [r|] eqn:M; try (apply (make_nn c0 m (NLoop e rg) m' t W Z I I H)).
+  apply (make_nn c0 m (NLoop x r) m' t W Z I I H).
 Qed.
 
 Lemma concat_nn c0 : forall e1 m e2 m' t,
@@ -116,15 +115,12 @@ Proof.
   destruct (is_eps_node e1); [inversion H; subst; auto|].
   destruct (is_eps_node e2); [inversion H; subst; auto|].
   unfold concat_rules in H.
-  destruct (rule5 e1 e2) as [rng|] eqn:R5.
-  { destruct (lr_add_point rng 1) as [r|] eqn:A; cbn [bind] in H; [|discriminate].
-    apply (make_nn c0 m (NLoop e1 r) m' t W Z I I H). }
-  destruct (rule5 e2 e1) as [rng|] eqn:R6.
-  { destruct (lr_add_point rng 1) as [r|] eqn:A; cbn [bind] in H; [|discriminate].
-    apply (make_nn c0 m (NLoop e2 r) m' t W Z I I H). }
-  destruct (rule7 e1 e2) as [[[x xr] yr]|] eqn:R7.
-  { destruct (lr_add xr yr) as [r|] eqn:A; cbn [bind] in H; [|discriminate].
-    apply (make_nn c0 m (NLoop x r) m' t W Z I I H). }
+  destruct (rule5g e1 e2) as [r|] eqn:G5.
+  { apply (make_nn c0 m (NLoop e1 r) m' t W Z I I H). }
+  destruct (rule5g e2 e1) as [r|] eqn:G6.
+  { apply (make_nn c0 m (NLoop e2 r) m' t W Z I I H). }
+  destruct (rule7g e1 e2) as [[x r]|] eqn:G7.
+  { apply (make_nn c0 m (NLoop x r) m' t W Z I I H). }
   destruct (re_eqb e1 e2).
   { apply (make_nn c0 m (NLoop e1 (lr_point 2)) m' t W Z I I H). }
   destruct (rnode e1) as [| |s|x y|x xr|x|l|l] eqn:K.
